@@ -653,7 +653,7 @@ class Interp:
                 raise Undecided(f"unknown attribute self.{e.attr}")
             if A.dotted(e) in HANDLE_NAMES:
                 return MODULE
-            if isinstance(e.value, (ast.Name, ast.Attribute, ast.Subscript)):
+            if isinstance(e.value, (ast.Name, ast.Attribute, ast.Subscript, ast.Call)):
                 try:
                     basev = self.eval(e.value)
                 except Undecided:
